@@ -376,21 +376,25 @@ func typeAssert(n *node, withResult, withOk bool) {
 				}
 				return next
 			}
-			m0 := v.node.typ.methods()
-			m1 := typ.methods()
-			if len(m0) < len(m1) {
+			// notOk ends a failed assertion.
+			notOk := func() bltn {
 				ok = false
 				if !withOk {
 					panic(n.cfgErrorf("interface conversion: %v is not %v", v.node.typ.id(), typID))
 				}
 				return next
 			}
+			m0 := v.node.typ.methods()
+			m1 := typ.methods()
+			if len(m0) < len(m1) {
+				return notOk()
+			}
 
 			for k, meth1 := range m1 {
 				var meth0 string
 				meth0, ok = m0[k]
 				if !ok {
-					return next
+					return notOk()
 				}
 				// As far as we know this equality check can fail because they are two ways to
 				// represent the signature of a method: one where the receiver appears before the
@@ -402,20 +406,17 @@ func typeAssert(n *node, withResult, withOk bool) {
 				}
 				tm := lookupFieldOrMethod(v.node.typ, k)
 				if tm == nil {
-					ok = false
-					return next
+					return notOk()
 				}
 
 				var err error
 				meth0, err = stripReceiverFromArgs(meth0)
 				if err != nil {
-					ok = false
-					return next
+					return notOk()
 				}
 
 				if meth0 != meth1 {
-					ok = false
-					return next
+					return notOk()
 				}
 			}
 
@@ -443,22 +444,19 @@ func typeAssert(n *node, withResult, withOk bool) {
 				return next
 			}
 			if ok && val.node.typ.cat != valueT {
-				m0 := val.node.typ.methods()
-				m1 := typ.methods()
-				if len(m0) < len(m1) {
+				// notOk ends a failed assertion.
+				notOk := func(method string) bltn {
 					ok = false
+					if !withOk {
+						panic(n.cfgErrorf("interface conversion: %s is not %s: missing method %s", val.node.typ.id(), rtype.String(), method))
+					}
 					return next
 				}
-
+				m0 := val.node.typ.methods()
+				m1 := typ.methods()
 				for k, meth1 := range m1 {
-					var meth0 string
-					meth0, ok = m0[k]
-					if !ok {
-						return next
-					}
-					if meth0 != meth1 {
-						ok = false
-						return next
+					if meth0, found := m0[k]; !found || meth0 != meth1 {
+						return notOk(k)
 					}
 				}
 
